@@ -475,10 +475,15 @@ class CallMixin:
                 return cls(*args, **kwargs)
             if cls.__name__ in (getattr(self.cur_contract, 'opaque_classes', None) or ()):
                 zs = self.zs
-                sorts = [a.sort() if z3.is_expr(a) else zs.zsort(api.Obj) for a in args]
-                f_ = self.ufun(f'new_{cls.__name__}_{len(args)}', *sorts, zs.zsort(api.Obj))
+                terms_ = [a if z3.is_expr(a) else (z3.IntVal(a) if isinstance(a, int) and not isinstance(a, bool) else (z3.StringVal(a) if isinstance(a, str) else self.unwrap_term(a))) for a in args]
+                sorts = [t_.sort() for t_ in terms_]
+                f_ = self.ufun(f'new_{cls.__name__}_' + '_'.join(str(s_) for s_ in sorts), *sorts, zs.zsort(api.Obj))
                 self.assumptions.add(f'{cls.__name__} objects are opaque: construction and methods are uninterpreted functions')
-                return VObj(f_(*[a if z3.is_expr(a) else self.unwrap_term(a) for a in args]), cls)
+                obj_ = VObj(f_(*terms_), cls)
+                # the construction is visible to the contract as an event ('new <Class>', *args, object) with its keywords
+                from .exprs import Event
+                self.path.trace.append(Event((f'new {cls.__name__}',) + tuple(args) + (obj_,), dict(kwargs)))
+                return obj_
             raise Unsupported(f'construction of {cls.__name__} with symbolic arguments')
         if issubclass(cls, tuple) and hasattr(cls, '_fields'):
             # typing.NamedTuple: an immutable record of its fields
